@@ -564,7 +564,7 @@ Definition ex_ev5 : pnlri := (2, NEvpn (Ev5 ex_rd (repeat 0 10) 0 64 (pat_bytes 
 Definition ex_rtc : pnlri := (3, NRtc (RtcExact 65001 [0; 2; 253; 232; 0; 0; 0; 1])).
 Definition ex_srp : pnlri := (4, NSrp 1 100 [192; 0; 2; 1]).
 Definition ex_mup3 : pnlri := (5, NMup (Mup3 ex_rd 24 [10; 1; 2; 0] 4096 9 [192; 0; 2; 1] (Some [198; 51; 100; 7]))).
-Definition ex_mup4 : pnlri := (6, NMup (Mup4 ex_rd 48 [192; 0; 2; 1] 16909056)).
+Definition ex_mup4 : pnlri := (6, NMup (Mup4 ex_rd 48 [192; 0; 2; 1] 16908288)).
 
 Ltac num_goal :=
   first [ reflexivity | exact I | discriminate | (intros Hx; discriminate Hx)
